@@ -869,6 +869,10 @@ impl Sim {
             if self.debug_timers {
                 let a = self.nodes[node].conns[&ch].conn.verif_snapshot();
                 eprintln!("DBG t={} node {node} after rx {len}B: loss_timer {:?} inflight_ae {} bytes {} sp2 last_ae {:?} has_in_flight {} largest_acked {:?} pto_count {} state {}", nowoff, a.timers[0].map(|t| self.off(t)), a.path.in_flight_ack_eliciting, a.path.in_flight_bytes, a.spaces[2].time_of_last_ack_eliciting_packet.map(|t| self.off(t)), a.spaces[2].sent_in_flight, a.spaces[2].largest_acked, a.pto_count, a.state);
+                if std::env::var("VERIF_SIM_TIMERDBG").map_or(false, |v| v == "2") {
+                    let c = &self.nodes[node].conns[&ch].conn;
+                    eprintln!("    gens {:?} remote {} prev {:?} outstanding-in-flight {:?}", c.verif_path_generations(), a.path.remote, a.prev_path.as_ref().map(|p| (p.remote, p.in_flight_bytes)), c.verif_outstanding().iter().filter(|p| p.size != 0).map(|p| (p.space, p.pn, p.size, p.ack_eliciting, p.path_generation)).collect::<Vec<_>>());
+                }
             }
             if remote_after != remote_before {
                 // new path: its budget starts with the datagram that revealed it
